@@ -1205,6 +1205,8 @@ val abs_disk : n -> n -> n -> bool -> disk -> abs_result
 
 val empty_disk : disk
 
+val encode_inode : dinode -> bytes
+
 type 'entry slot = 'entry option
 
 type 'entry dir = 'entry slot list
